@@ -1,46 +1,80 @@
-import FitModel.Shared
+import FitModel.SharedGen
 import Driver.Listener
 -- @family concurrent Drv.hConcurrent
 namespace Drv
-open Fit.Shared
+open Fit.Shared Fit.SharedInv
+open Fit.Gen
 
-/-- the abstract program of one operation token of the `concurrent` family (which shared state the real operation touches:
-see FitModel/Shared.lean). `idx` = position of the op in the line (its own options object is 100 + idx). -/
-def concProg (idx : Nat) (tok : String) : Option (List Act) :=
+/-! The model's answer for one line of the `concurrent` family. An operation token of the harness is a sequence of
+public entry points (written down here: it describes the harness); the program of an entry point is NOT written down:
+it is `Fit.SharedGen.classProg` of the touch class the translator found for it (`Gen.SharedState.entries`). An entry point the
+translator does not know (renamed API) makes the line `bad-op`, so the check fails loudly. -/
+
+def entryClass (name : String) : Option Nat := (SharedState.entries.find? (·.1 == name)).map (·.2)
+
+/-- all entry points of a package with a given prefix and suffix -/
+def entriesLike (pre suf : String) : List String :=
+  (SharedState.entries.filter fun e => e.1.startsWith pre && e.1.endsWith suf).map (·.1)
+
+def fileAdd : List String := entriesLike "(*profile/filedef." ").Add"
+def fileToFIT : List String := entriesLike "(*profile/filedef." ").ToFIT"
+def fileNew : List String := (entriesLike "profile/filedef.New" "").filter (· != "profile/filedef.NewListener")
+
+/-- the entry points an operation token runs through, and the options objects it hands to typed conversions -/
+def opEntries (idx : Nat) (tok : String) : Option (List String × List Nat) :=
+  let dec := ["decoder.New", "(*decoder.Decoder).Next", "(*decoder.Decoder).Decode"]
+  let lis := ["profile/filedef.NewListener", "(*profile/filedef.Listener).OnMesg", "(*profile/filedef.Listener).File",
+              "(*profile/filedef.Listener).Close"]
   match tok.splitOn ":" with
-  | ["dec", i] => i.toNat?.map fun i => [.loc i]                          -- own decoder; static tables only
-  | ["decl", i, _n] => i.toNat?.map fun i =>                               -- decoder + listener + file: typed conversions
-      [.loc i] ++ progNew [i % 251] ++ progNew [i % 13, 1] ++ progToMesgNil [i % 251] ++ progToMesgNil [i % 13, 1]
-  | ["enc", s] => s.toNat?.map fun s => [.loc (s % 1000)]                  -- own encoder, own buffer
-  | ["file", _ft, s, mode] => s.toNat?.bind fun s =>
-      let vals := [s % 251, s % 13]
-      let news := progNew vals ++ progNew [s % 7]
-      if mode == "n" then some (news ++ progToMesgNil vals ++ progToMesgNil [s % 7])
-      else if mode == "o" then some (news ++ progToMesg (100 + idx) vals ++ progToMesg (100 + idx) [s % 7])
-      else if mode == "s" then some (news ++ progToMesg 0 vals ++ progToMesg 0 [s % 7])
-      else if mode == "z" then some (news ++ progToMesg 1 vals ++ progToMesg 1 [s % 7])
-      else none
-  | ["lis", _ft, s, _n] => s.toNat?.map fun s => progNew [s % 251] ++ progNew [s % 13] ++ progToMesgNil [s % 251] ++ progToMesgNil [s % 13]
-  | ["lisc", _ft, s, _n, _c] => s.toNat?.map fun s =>                      -- as lis; the customised file-set map is the op's own copy
-      progNew [s % 251] ++ progNew [s % 13] ++ progToMesgNil [s % 251] ++ progToMesgNil [s % 13]
-  | ["fac", k] => k.toNat?.map fun k => progCreateMesg k ++ [.loc k]
-  | ["open", _] => some [.loc 0]                                           -- own pool of decoders, own workers
+  | ["dec", _] => some (dec, [])
+  | ["decl", _, _] => some (lis ++ dec ++ fileToFIT, [])
+  | ["enc", _] => some (["encoder.New", "(*encoder.Encoder).Encode"], [])
+  | ["encd", _] => some (["encoder.New", "(*encoder.Encoder).Encode"], [])
+  | ["senc", _, _] => some (["encoder.NewStream", "(*encoder.StreamEncoder).WriteMessage",
+                             "(*encoder.StreamEncoder).SequenceCompleted"], [])
+  | ["sencd", _, _] => some (["encoder.NewStream", "(*encoder.StreamEncoder).WriteMessage",
+                              "(*encoder.StreamEncoder).SequenceCompleted"], [])
+  | ["file", _, _, mode] =>
+    let es := fileNew ++ fileAdd ++ fileToFIT
+    if mode == "n" then some (es, [])
+    else if mode == "o" then some (es, [100 + idx])
+    else if mode == "s" then some (es, [0])
+    else if mode == "z" then some (es, [1])
+    else none
+  | ["lis", _, _, _] => some (lis ++ fileToFIT, [])
+  | ["lisc", _, _, _, _] => some ("profile/filedef.PredefinedFileSet" :: lis ++ fileToFIT, [])
+  | ["fac", _] => some (["profile/factory.CreateMesg", "profile/factory.CreateField"], [])
+  | ["open", _] => some (["cmd/fitactivity/opener.Open"], [])
   | _ => none
 
-def concSh0 : Sh := { once := false, table := fun _ => 0, pool := [], opts := fun o => if o = 0 then some stdFactory else none }
+/-- the program of an operation token: the regenerated class programs of its entry points, the accesses to the options
+objects it uses (derived from `Gen.SharedState.paramWrites`), one private step -/
+def concProg (idx : Nat) (tok : String) : Option (List Act) :=
+  match opEntries idx tok with
+  | none => none
+  | some (es, os) =>
+    let cs := es.map entryClass
+    if cs.any Option.isNone || es.isEmpty then none
+    else some ((cs.filterMap id).flatMap Fit.SharedGen.classProg ++
+               os.flatMap (fun o => Fit.SharedGen.optionActs "(*profile/mesgdef.Record).ToMesg" o) ++ [.loc idx])
 
+def concSh0 : Sh :=
+  { cell := fun r => 7 * r + 3, once := fun _ => .idle, pool := fun _ => [], heap := fun _ => [], next := 0,
+    opts := fun o => if o = 0 then some stdFactory else none }
+
+/-- a seeded interleaving followed by enough round-robin rounds for everybody to finish -/
 def concSchedule (seed : Nat) (progs : List (List Act)) : List (Nat × Nat) :=
-  let total := (progs.map List.length).sum
+  let fuel := (progs.map (soloFuel Fit.SharedGen.genEnv)).sum
   let n := progs.length
-  let rnd := (List.range (3 * total)).map fun i => (mix (seed * 7919 + i) % (n + 1), mix (seed + 31 * i) % 5)
-  let fin := (List.range n).flatMap fun i => List.replicate ((progs.getD i []).length) (i, mix (seed + i) % 3)
+  let rnd := (List.range (2 * fuel)).map fun i => (mix (seed * 7919 + i) % (n + 1), mix (seed + 31 * i) % 5)
+  let fin := (List.range fuel).flatMap fun r => (List.range n).map fun i => (i, mix (seed + r + i) % 3)
   rnd ++ fin
 
 def sameBits (progs : List (List Act)) (cfg : Cfg) : String :=
   String.ofList ((List.range progs.length).map fun i =>
     match cfg.threads[i]?, progs[i]? with
     | some t, some prog =>
-      let solo := soloExec prog concSh0 (List.replicate prog.length 0)
+      let solo := exec Fit.SharedGen.genEnv (initCfg [prog] concSh0) ((List.replicate (soloFuel Fit.SharedGen.genEnv prog) 0).map fun c => (0, c))
       match solo.threads with
       | [ts] => if t.todo.isEmpty && ts.todo.isEmpty && t.priv.out == ts.priv.out then '1' else '0'
       | _ => '0'
@@ -63,12 +97,12 @@ def hConcurrent : Handler := fun r =>
     | some seed, some progs =>
       match r.mode with
       | .model =>
-        let cfg := exec (initCfg progs concSh0) (concSchedule seed progs)
+        let cfg := exec Fit.SharedGen.genEnv (initCfg progs concSh0) (concSchedule seed progs)
         "same=" ++ sameBits progs cfg ++ " opts=" ++ optsBits cfg
       | .spec => "n/a"
       | .prop =>
         -- the property on the implementation's answer: every operation's concurrent result is its solo result, and the
-        -- option values shared by the operations were only read (C15_non_interference, C15_options_never_written)
+        -- option values shared by the operations were only read
         match r.impl.splitOn " " with
         | [sm, op] =>
           match stripPrefix? sm "same=", stripPrefix? op "opts=" with
@@ -77,7 +111,7 @@ def hConcurrent : Handler := fun r =>
             else if ob != "ro" then "fail:shared-options-written" else "ok"
           | _, _ => "fail:unparsable"
         | _ => "fail:unparsable"
-      | .kf => "-"   -- no open finding class (KF-C15-1 is repaired: mode z is an ordinary mix)
+      | .kf => "-"   -- no open finding class
     | _, _ => if r.mode == .model then "bad-op" else if r.mode == .kf then "-" else "n/a"
   | _ => if r.mode == .model then "bad-op" else if r.mode == .kf then "-" else "n/a"
 
